@@ -20,7 +20,7 @@ const ASSUMPTIONS: &[&str] = &[
     "one refresher at a time (compute_cache is not re-entered concurrently), as in the aggregator's state machine",
     "resources are harness values tagged with the generation the refresher built them for; raw give-backs by workers carry the generation they read when they built the resource",
     "stamps: *_call before the pool call, *_return after it; only orderings implied by return < call are used (happens-before), acquires overlapping a refresh may see either generation",
-    "S4 (bounded wake-up) is measured on the wall clock with 1 s slack and can only make the run inconclusive, never a violation",
+    "S4 (bounded wake-up) is measured on the wall clock: a miss (1.5 s timeout, 1 s slack) must reproduce, and becomes a violation only when the same scenario also misses in 3 of 3 confirmation runs with a 4 s timeout and 3 s slack; otherwise the run is inconclusive",
     "interleavings are those the OS scheduler (plus seeded delays at the hook points) produced: sampled, not exhaustive; L1x is exhaustive for its stated bound only",
 ];
 
@@ -336,7 +336,23 @@ fn phase_wake(mon: &mut Monitor) {
             for f in &rep.findings {
                 m.violation(f.sig, &format!("[wake scenario] {}", f.what), json!({"level": "W", "shard": s, "i": i, "cfg": format!("{cfg:?}"), "events": log_lines(&out.log, 80)}));
             }
+            let mut confirmed = false;
             if out.missed > 0 {
+                // confirmation series: the same scenario three more times with far longer bounds
+                // (4 s waiter timeout, 3 s slack after enough resources were given back). A waiter
+                // that still times out in all three is not explained by a stalled machine.
+                let strict = WakeCfg { waiter_timeout_ms: 4000, slack_ms: 3000, ..cfg.clone() };
+                let misses = (0..3).filter(|_| run_wake(&strict, seed).missed > 0).count();
+                m.count_n("W.confirmation_runs_missed", misses as u64);
+                confirmed = misses == 3;
+            }
+            if out.missed > 0 && confirmed {
+                m.violation(
+                    "C18 blocked caller times out although enough current-generation resources were given back (lost wake-up)",
+                    &format!("{} waiter(s) returned AcquireTimeout although a current-generation resource had been given back for every waiter long before their deadline; reproduced in 2 runs with a 1.5 s timeout and in 3 of 3 confirmation runs with a 4 s timeout / 3 s slack ({cfg:?})", out.missed),
+                    json!({"level": "W", "shard": s, "i": i, "cfg": format!("{cfg:?}"), "events": log_lines(&out.log, 80)}),
+                );
+            } else if out.missed > 0 {
                 missed_total.fetch_add(out.missed as u64, std::sync::atomic::Ordering::Relaxed);
                 m.inconclusive(&format!(
                     "S4 bounded wake-up: {} waiter(s) returned AcquireTimeout more than {} ms after enough current-generation resources had been given back ({cfg:?}, shard {s} scenario {i}); wall-clock observation, not a violation",
